@@ -1,7 +1,7 @@
 """Contracts of the index kernel of pyerrors/obs.py (DESIGN section 5, layer L1)."""
 import z3
 from pyvc.specs import contract, Int, Real, RealSeq, Idl, IdlList, IdlRange, ListOf, Seq, Const, OneOf, Custom
-from pyvc.sym import SBool, fresh
+from pyvc.sym import SBool, fresh, wrap
 from pyvc import gen as G
 from pyvc.sym import (Len, At, And, Or, Not, Implies, Iff, Ite, ForAll, Exists, eq, is_range, member,
                       strictly_increasing, compare, arith, Step, Start)
@@ -201,6 +201,24 @@ def equally_spaced_idl(r):
     return And(Len(r) >= 2, equally_spaced(r))
 
 
+def _mi_result(a, ctx):
+    """at a call site: the operands' common list if they are all equal, otherwise a fresh range or list (the kind is decided
+    by a case split; the postcondition, assumed afterwards, ties it to the spacing of the union)"""
+    from pyvc.sym import tb, sym_range, range_axioms, SSeq, SInt
+    items = a.idl.items if hasattr(a.idl, "items") else list(a.idl)
+    same = all_pyeq(a.idl)
+    if same is True or (same is not False and ctx.branch(tb(same))):
+        return items[0]
+    if ctx.choice("merged-list-is-a-range"):
+        r = sym_range("merged", SInt(z3.Int(fresh("merged.start"))), SInt(z3.Int(fresh("merged.step"))), SInt(z3.Int(fresh("merged.n"))))
+        for ax in range_axioms(r):
+            ctx.assume(wrap(ax))
+        return r
+    u = SSeq.fresh("merged", "list", "int")
+    ctx.assume(u.length >= 0)
+    return u
+
+
 contract(
     "pyerrors/obs.py::_merge_idx", props=["C01", "C04"],
     params=dict(idl=ListOf(Idl(min_len=2), counts=(1, 2, 3))),
@@ -209,6 +227,7 @@ contract(
     # (range(1, 2) and [1]) makes `idunion[1]` raise IndexError
     requires=lambda a: {"two": And(*[Len(At(a.idl, m)) >= 2 for m in range(Len(a.idl))])},
     ensures=_mi_post,
+    result=_mi_result,
     ghost_after={"idrange": lambda v: [
         # if the union is equally spaced, the candidate range enumerates exactly the union (induction over the index)
         ("induct", "range-equals-union", 0, Ite(Len(v.idrange) < Len(v.idunion), Len(v.idrange), Len(v.idunion)),
